@@ -17,7 +17,8 @@ CHECKS = {
                      "(every driver command sequence up to the bound, handlers that schedule, cancel and send); every "
                      "TLC-generated behaviour and seeded random command sequences are executed on the real crate (1 and "
                      "2-4 worker threads, nanosecond grids crossing second boundaries) and each recorded trace must be a "
-                     "behaviour of the specification with the invariants holding in every state.",
+                     "behaviour of the specification with the invariants holding in every state; so must runs in which a "
+                     "second thread issues scheduling requests through a Scheduler clone while the main thread steps.",
                 design="6/C01", note=SIMCORE_NOTE),
     "C07": dict(spec="SimCore.tla (SameOriginFifo, ExactFirings)",
                 text="TLC checks same-origin FIFO among same-deadline events (one-shot, keyed, periodic, two origins) on "
@@ -46,7 +47,9 @@ CHECKS = {
                 text="TLC enumerates every fault kind (panic, missing recipient from a model and from the scheduler, "
                      "deadlock, message loss, time-out, clock lag, bad query, invalid deadline) at every position of a "
                      "driver sequence followed by every follow-up call; the result of every call on the real crate (ST and "
-                     "MT) must be the one the specification classifies, and after a fatal error nothing may change.",
+                     "MT) must be the one the specification classifies, and after a fatal error nothing may change; the model "
+                     "named by a Panic raised at each position of a model hierarchy is decided on the Bench layer "
+                     "(Bench.tla, hpanic benches).",
                 design="6/C11", note=SIMCORE_NOTE + " Time-out uses wall-clock margins (300 ms vs 1200 ms)."),
     "C18": dict(spec="SimCore.tla (SyncMonotone, SyncBeforeCompute, SyncCoversNow, SyncOncePerNewTime, OutOfSyncGates)",
                 text="TLC checks the synchronisation discipline for all event sets, step/step_until partitions, scripted "
@@ -93,35 +96,47 @@ CHECKS.update({
                      "specification: each handler start must name a message that is at the head of that mailbox, a "
                      "run may return Ok only when nothing is left, and sink contents must match.",
                 design="6/C03", note=BENCH_NOTE),
-    "C04": dict(engine="bench", spec="Bench.tla (QuiescentMeansDone, ExactlyOnce, terminal outcomes)",
+    "C04": dict(engine="bench", spec="Bench.tla (QuiescentMeansDone, ExactlyOnce, terminal outcomes), Pool.tla "
+                                     "(OkMeansQuiescent, NoStrandedRun, BusyIsActive, OnePlace), Pool_Trace.tla",
                 text="TLC checks that the executor can only return Ok when no message is queued and no handler is "
                      "half-way, and computes the terminal outcomes of every schedule (a singleton for the confluent "
                      "benches); all single-threaded schedules and free runs on 2/4/16 workers with delays at the pool "
                      "protocol points must be behaviours of the specification and end in that outcome; hangs are caught "
-                     "by a watchdog.",
-                design="6/C04", note=BENCH_NOTE + " The pool's park/unpark protocol is exercised through delay injection "
-                                                  "at hook points V5, not yet through its own specification."),
-    "C05": dict(engine="bench", spec="Bench.tla (task state machine: one message at a time per model)",
+                     "by a watchdog. Pool.tla specifies the thread pool at shared-access granularity (activation bit set, "
+                     "park tokens, LIFO slot, local queues with overflow, stealing, injector buckets and hint flag); its "
+                     "structural parameters are extracted from the source, TLC explores every interleaving of the "
+                     "scenarios, the scenarios run on the real pool under a delay sweep and every execution is validated "
+                     "against Pool_Trace.tla; bursts of wake-ups beyond the local queue's capacity must complete.",
+                design="6/C04", note=BENCH_NOTE + " Pool.tla: 2-3 workers, 3-6 tasks; st3's queue abstracted to a "
+                                                  "sequence; no time-outs; the extraction of structural parameters is a "
+                                                  "narrow recogniser (exit 2 when it does not understand the source)."),
+    "C05": dict(engine="bench", spec="Bench.tla (task state machine: one message at a time per model), Task.tla (Safe: "
+                                     "polls of one task never overlap), Task_Trace.tla",
                 text="Every harness model carries a busy flag (set at init/handler entry, cleared at exit, under the log "
                      "mutex); the trace specification only accepts a handler start when the model is idle and has taken "
                      "exactly that message, so overlapping computations of one model are rejected; checked under all "
-                     "enumerated single-threaded schedules and free multi-threaded runs with delays.",
+                     "enumerated single-threaded schedules and free multi-threaded runs with delays. At task level TLC "
+                     "explores the interleavings of the handle operations of Task.tla and real threads racing on the "
+                     "handles of one task are validated against Task_Trace.tla.",
                 design="6/C05", note=BENCH_NOTE),
-    "C06": dict(engine="bench", spec="Bench.tla (Quiesce classification: Deadlock list / MessageLoss count / Ok)",
+    "C06": dict(engine="bench", spec="Bench.tla (Quiesce classification: Deadlock list / MessageLoss count / Ok), Pool.tla "
+                                     "(CountExact), Channel.tla (CountExact)",
                 text="TLC explores every schedule of query loops, saturating loops, orphan mailboxes and sub-model "
                      "deadlocks; the error returned by the real crate (kind, qualified model names, exact mailbox "
                      "sizes, lost-message count) must be the one the specification derives from its mailbox contents at "
                      "the stall, and runs that complete must return Ok - on all enumerated schedules and on 2/4/16 "
-                     "workers with delays at the deactivation/fold/park points.",
+                     "workers with delays at the deactivation/fold/park points. The in-flight message count is also decided "
+                     "at executor level (Pool.tla: the count read by run() is exact on every interleaving; traces of the "
+                     "real pool) and at channel level (Channel.tla histories replayed, count compared after every poll).",
                 design="6/C06", note=BENCH_NOTE),
     "C14": dict(engine="bench", spec="Bench.tla (OpStart/Push/HE/OpDone for queries: one reply per accepted replier, in "
-                                     "connection order)",
+                                     "connection order), PortClones.tla (SharedLinks)",
                 text="TLC explores every completion order of 0..6 repliers with filtered subsets; on the real crate the "
                      "reply vector returned by Requestor::send (each reply encodes the replier, the mapped request and "
                      "the connection's reply map) must equal the specification's under every enumerated schedule and "
                      "free multi-threaded runs.",
-                design="6/C14", note=BENCH_NOTE + " Port-clone sharing (CachedRwLock) and TaskSet are not yet covered "
-                                                  "by their own specifications."),
+                design="6/C14", note=BENCH_NOTE + " Port-clone sharing is PortClones.tla (sequential histories); TaskSet "
+                                                  "and CachedRwLock are not specified at atomic level."),
     "C16": dict(engine="bench", spec="Bench.tla (InitOnceFirst; qualified names in handler contexts and reports)",
                 text="TLC explores every schedule of SimInit::init on hierarchies of depth <= 3 whose init scripts send "
                      "events and queries to models that are not initialised yet; on the real crate init must run once "
@@ -132,24 +147,30 @@ CHECKS.update({
 
 CHECKS.update({
     "C12": dict(engine="queue", spec="MpscQueue.tla (Bounded, NoCellRace, NoUnreachable, PoppedOnce, PerProducerFifo, NoSkip, "
-                                    "LenWhenQuiescent, ResultsOk), MpscQueue_Trace.tla",
+                                    "LenWhenQuiescent, ResultsOk), MpscQueue_Trace.tla, Channel.tla (Bounded, Lossless, "
+                                    "CountExact, NoStuckSender, NoStuckReceiver)",
                 text="The queue's push/pop/release/close/len are transcribed at atomic-operation granularity with the "
                      "code's own position/stamp arithmetic; TLC explores every interleaving for capacities 1-3 and 2-3 "
                      "producers; every sequential operation history up to the bound is replayed on the real queue (V1 "
                      "facade) and each result compared; executions of real producer/consumer threads are logged as "
                      "start/end events and must be linearisable with respect to the atomic-step specification (TLC "
-                     "searches the interleaving).",
+                     "searches the interleaving). The wake-up protocol (suspended senders' FIFO wait set, receiver waker, "
+                     "close) is Channel.tla at the granularity of one poll of a future: every history up to the bound is "
+                     "replayed on the real channel with counting wakers and every observable compared.",
                 design="6/C12", note="Trusted: TLC/SANY, harness. Sequentially consistent interleavings only: weaker memory "
-                                     "orderings are not decided. The wake-up protocol of Sender::send/Receiver::recv is "
-                                     "covered end to end by the Bench checks (lost wake-up = stall), not at atomic level."),
+                                     "orderings are not decided. Channel.tla is sequential (one polling thread): concurrent "
+                                     "interleavings of the wake-up protocol are exercised end to end by the Bench checks "
+                                     "(lost wake-up = stall), not enumerated."),
     "C19": dict(engine="simcore", spec="SimCore_Trace.tla (TDrop: balanced release of models, messages, handler futures; "
-                                      "threads joined; no model code afterwards), SimCore.tla for the prefixes",
+                                      "threads joined; no model code afterwards), SimCore.tla for the prefixes, Pool.tla "
+                                      "(DropReturns, NoDropOutsideWorker)",
                 text="The simulation, with its scheduler handle, addresses, event sources and keys, is dropped after every "
                      "prefix of the TLC-generated driver sequences (idle, pending scheduled actions, after each kind of "
                      "failure), after random prefixes and after a failure with senders suspended on capacity-1 mailboxes, "
                      "on 1-16 threads with a delay sweep over the pool hook points. Drop-counting tokens in every model, "
                      "message and handler future and the process's thread count are recorded in a `drop` event that must "
-                     "satisfy TDrop; a drop that does not return is caught by a watchdog.",
+                     "satisfy TDrop; a drop that does not return is caught by a watchdog. The executor's abort/join sequence "
+                     "is decided on Pool.tla (TLC, and traces of the real pool dropped after every scenario).",
                 design="6/C19", note=SIMCORE_NOTE + " Release is observed through tokens and thread counts, not by a "
                                                     "memory checker."),
 })
@@ -237,6 +258,15 @@ def main():
                                       "/verif/tools/check_seqlock.py /verif/harness/src/timecell.rs",
                  serves_properties=["C15"],
                  kind_free_text="TLC on a weak-memory model with orderings extracted from the source + trace validation"),
+            dict(name="pool", path="/verif/specs/Pool.tla /verif/specs/Pool_Trace.tla /verif/tools/pooldefs.py "
+                                   "/verif/tools/check_pool.py /verif/harness/src/pool.rs",
+                 serves_properties=["C04", "C06", "C19"],
+                 kind_free_text="TLC interleaving exploration with structural parameters extracted from the source + trace "
+                                "validation of the real thread pool (all shared-memory steps inferred) + burst runs"),
+            dict(name="chan", path="/verif/specs/Channel.tla /verif/specs/MC_Channel.tla /verif/tools/check_chan.py "
+                                   "/verif/harness/src/chan.rs",
+                 serves_properties=["C12", "C06"],
+                 kind_free_text="TLC history enumeration + replay of every history on the real channel with counting wakers"),
             dict(name="seqds", path="/verif/specs/Sinks.tla /verif/specs/PQ.tla /verif/specs/PQ_Trace.tla "
                                     "/verif/tools/check_seqds.py /verif/harness/src/seqds.rs",
                  serves_properties=["C17", "C20"],
